@@ -57,6 +57,7 @@ type Spec struct {
 	Level       string            `json:"level"`
 	Tests       bool              `json:"tests"`
 	Units       []Unit            `json:"units"`
+	Native      []string          `json:"native_files"`
 }
 
 type KnownFinding struct {
@@ -219,6 +220,16 @@ func runNative(repo, verif string, spec *Spec, l *loaded, tmp string, items [][2
 		ov["Replace"][v] = r
 	}
 	ov["Replace"][filepath.Join(repo, spec.Dir, "zz_verif_replay_test.go")] = testReal
+	for i, nf := range spec.Native {
+		data, err := os.ReadFile(filepath.Join(verif, "harness", spec.Property, nf))
+		if err != nil {
+			return nil, "", err
+		}
+		nsrc := strings.Replace(string(data), "package PKGNAME", "package "+l.pkgName, 1)
+		real := filepath.Join(tmp, fmt.Sprintf("zz_verif_native_%d_test.go", i))
+		os.WriteFile(real, []byte(nsrc), 0o644)
+		ov["Replace"][filepath.Join(repo, spec.Dir, fmt.Sprintf("zz_verif_native_%d_test.go", i))] = real
+	}
 	ovPath := filepath.Join(tmp, "overlay.json")
 	ovData, _ := json.Marshal(ov)
 	os.WriteFile(ovPath, ovData, 0o644)
